@@ -1,0 +1,27 @@
+//! Access to the crate-private operations of [`BlockRanges`].
+
+use crate::block_ranges::BlockRanges;
+
+pub fn headn(r: &BlockRanges, limit: u64) -> BlockRanges {
+    r.headn(limit)
+}
+
+pub fn tailn(r: &BlockRanges, limit: u64) -> BlockRanges {
+    r.tailn(limit)
+}
+
+pub fn edges(r: &BlockRanges) -> BlockRanges {
+    r.edges()
+}
+
+pub fn partitions(r: &BlockRanges) -> Option<(BlockRanges, u64, BlockRanges)> {
+    r.partitions()
+}
+
+pub fn left_of(r: &BlockRanges, height: u64) -> Option<u64> {
+    r.left_of(height)
+}
+
+pub fn right_of(r: &BlockRanges, height: u64) -> Option<u64> {
+    r.right_of(height)
+}
